@@ -21,11 +21,11 @@ func (d *LLDP) Read(b []byte) (n int, err error) {
 		return
 	}
 	n += m
-	if o, err = d.Port.Read(b); o == 0 {
+	if o, err = d.Port.Read(b[n:]); o == 0 {
 		return
 	}
 	n += o
-	if p, err = d.Chassis.Read(b); p == 0 {
+	if p, err = d.Chassis.Read(b[n:]); p == 0 {
 		return
 	}
 	n += p
